@@ -477,16 +477,22 @@ fn exec_once(ctx: &Ctx, dir: &Path, cmd: &Cmd, timeout: Duration) -> Result<Outc
             plan.push_str(&s.plan_line('F'));
         }
         if let (Some(e2), true) = (&cmd.e2, cmd.e3) {
-            // engine E3: the shim schedules the real threads. PCT needs task priorities the
-            // shim does not keep: it runs as the random walk with the same seed.
+            // engine E3: the shim schedules the real threads with the same seeded policies
+            // (random walk, sticky, PCT-like priorities with change points, long preemptions).
             let policy = match e2.sched.policy.as_str() {
                 "sticky" => "sticky",
                 "trace" => "trace",
+                "pct" => "pct",
+                "stall" => "stall",
                 _ => "random",
             };
             plan.push_str(&format!(
-                "S {policy} {} {} {} {}\n",
-                e2.sched.seed, e2.sched.param, e2.max_steps, e2.generous_requests
+                "S {policy} {} {} {} {} {}\n",
+                e2.sched.seed,
+                e2.sched.param,
+                e2.max_steps,
+                e2.generous_requests,
+                e2.sched.horizon.max(1)
             ));
             for c in &e2.sched.trace {
                 plan.push_str(&format!("C {c}\n"));
